@@ -45,11 +45,12 @@ def main():
             if os.path.isdir(rd):
                 for f in os.listdir(rd):
                     kinds[f.rsplit("_", 1)[0]] = kinds.get(f.rsplit("_", 1)[0], 0) + 1
-            key = "check" if tier == "quick" else "check_" + tier
+            sfx = "" if os.environ.get("VERIF_SEED", "0") == "0" else "_seed" + os.environ["VERIF_SEED"]
+            key = ("check" if tier == "quick" else "check_" + tier) + sfx
             meta[key + "_rc"] = p.returncode
             meta[key + "_tail"] = "\n".join(p.stdout.strip().splitlines()[-3:])
-            meta["violation_kinds" if tier == "quick" else "violation_kinds_" + tier] = kinds
-            meta["detected" if tier == "quick" else "detected_" + tier] = p.returncode == 1 and a.returncode == 0
+            meta[("violation_kinds" if tier == "quick" else "violation_kinds_" + tier) + sfx] = kinds
+            meta[("detected" if tier == "quick" else "detected_" + tier) + sfx] = p.returncode == 1 and a.returncode == 0
             meta["repo_head"] = subprocess.run(["git", "-C", "/repo", "rev-parse", "--short", "HEAD"], capture_output=True, text=True).stdout.strip()
             meta["ran"] = [r for r in meta.get("ran", []) if not r.startswith(f"./check {prop} --tier {tier}")] + [f"./check {prop} --tier {tier} against the patched tree -> rc {p.returncode}"]
         finally:
